@@ -118,11 +118,7 @@ func verifOp(line string) (res string) {
 		if len(f) != 4 {
 			return "bad-op"
 		}
-		strip := types.VlanStripType(types.VlanStripTypeFilter)
-		if f[2] == "1" {
-			strip = types.VlanStripTypeVlan
-		}
-		return verifDPNames[getDatePath(verifIPType(f[1]), strip, f[3] == "1")]
+		return verifDPNames[getDatePath(verifIPType(f[1]), verifStrip(f[2]), f[3] == "1")]
 	case "nc.parse":
 		if len(f) != 9 {
 			return "bad-op"
@@ -155,10 +151,7 @@ func verifOp(line string) (res string) {
 				alloc.ExtraRoutes = append(alloc.ExtraRoutes, &rpc.Route{Dst: verifCidr(r[2:])})
 			}
 		}
-		conf := &types.CNIConf{VlanStripType: types.VlanStripTypeFilter}
-		if f[2] == "1" {
-			conf.VlanStripType = types.VlanStripTypeVlan
-		}
+		conf := &types.CNIConf{VlanStripType: verifStrip(f[2])}
 		conf.RuntimeConfig.Bandwidth.IngressRate = rin
 		conf.RuntimeConfig.Bandwidth.EgressRate = reg
 		cfg, err := parseSetupConf(&skel.CmdArgs{IfName: string(argIf)}, alloc, conf, verifIPType(f[1]))
@@ -198,4 +191,17 @@ func verifOp(line string) (res string) {
 			cfg.Ingress, cfg.Egress, b(cfg.DefaultRoute), name, b(cfg.StripVlan), cfg.Vid, verifDPNames[cfg.DP])
 	}
 	return "bad-op"
+}
+
+// verifStrip: 0 = "filter", 1 = "vlan", 2 = key absent from the CNI configuration, 3 = some other string
+func verifStrip(tok string) types.VlanStripType {
+	switch tok {
+	case "1":
+		return types.VlanStripTypeVlan
+	case "2":
+		return ""
+	case "3":
+		return "strip"
+	}
+	return types.VlanStripTypeFilter
 }
